@@ -601,6 +601,7 @@ def gen_fourier(draw, tier="quick"):
         "x0": [draw(st.floats(-3, 3)) * ls for _ in range(dim)],
         "seed": draw(st.integers(0, 2**31 - 1)), "seed2": draw(st.integers(0, 2**31 - 1)),
         "nseeds": 300 if tier == "quick" else 2000,
+        "period0": draw(st.sampled_from([None, None, [draw(st.floats(5.0, 20.0)) * ls]])),
     }
 
 
@@ -623,7 +624,13 @@ def check_fourier(case, rec):
     K, dk = _fourier_grid(spec, case["period"], case["modes"])
     with quiet():
         S = model.spectrum(np.linalg.norm(K, axis=0))
-        gen = lib(Fourier, model, period=case["period"], mode_no=case["modes"], seed=1, _tags=tags)
+        if case.get("period0"):
+            # the generator (and the SRF below) is built with another period, which is then assigned: the tables have to follow
+            gen = lib(Fourier, model, period=case["period0"], mode_no=case["modes"], seed=1, _tags=tags)
+            gen.period = case["period"]
+            rec.label("period_assigned_after_construction")
+        else:
+            gen = lib(Fourier, model, period=case["period"], mode_no=case["modes"], seed=1, _tags=tags)
     w = S * np.prod(dk)
     # generator's own table equals the documented one
     require(gen._modes.shape == K.shape, f"mode table shape {gen._modes.shape}, documented grid {K.shape}", dict(tags, kind="fourier_table"))
@@ -648,7 +655,12 @@ def check_fourier(case, rec):
         Sn = case["nseeds"] * factor
         F = np.empty((Sn, 2))
         with quiet():
-            srf = gs.SRF(model, generator="Fourier", period=case["period"], mode_no=case["modes"], seed=0)
+            if case.get("period0"):
+                srf = gs.SRF(model, generator="Fourier", period=case["period0"], mode_no=case["modes"], seed=0)
+                srf(pts)
+                srf.generator.period = case["period"]
+            else:
+                srf = gs.SRF(model, generator="Fourier", period=case["period"], mode_no=case["modes"], seed=0)
             for r, s in enumerate(_seeds(seed, Sn)):
                 F[r] = srf(pts, seed=int(s))
         st_ = Stat()
